@@ -67,6 +67,7 @@ class Interp:
     def __init__(self, globals_: dict, where: str = ''):
         self.g = dict(globals_)
         self.where = where
+        self.yields = []
         self.g.setdefault('type', lambda x: getattr(x, '_typ', type(x)))
         self.g.setdefault('bool', bool)
         self.g.setdefault('len', len)
@@ -101,6 +102,15 @@ class Interp:
 
     def fail(self, what):
         return Unsupported(f'{self.where}: {what}')
+
+    def generate(self, fn, args, kwargs=None):
+        "call a generator function; returns the list of yielded values"
+        saved, self.yields = self.yields, []
+        try:
+            self.call(fn, args, kwargs)
+            return self.yields
+        finally:
+            self.yields = saved
 
     def safe(self, fn, args, kwargs=None):
         """call(), but a `raise` in the folded code (or an error from applying it to
@@ -153,7 +163,17 @@ class Interp:
             if isinstance(st, ast.Expr):
                 if isinstance(st.value, ast.Constant):
                     continue
+                if isinstance(st.value, ast.Yield):
+                    self.yields.append(self.ev(st.value.value, env) if st.value.value is not None else None)
+                    continue
                 self.ev(st.value, env)
+                continue
+            if isinstance(st, (ast.Import, ast.ImportFrom)):
+                # names must be supplied by the caller as globals
+                for a in st.names:
+                    nm = (a.asname or a.name).split('.')[0]
+                    if nm not in self.g and nm not in env:
+                        raise self.fail(f'import of `{nm}` has no mock')
                 continue
             if isinstance(st, ast.Return):
                 raise _Return(self.ev(st.value, env) if st.value is not None else None)
@@ -200,6 +220,23 @@ class Interp:
                 broke = False
                 for item in seq:
                     self.assign(st.target, item, env)
+                    try:
+                        self.run(st.body, env)
+                    except _Break:
+                        broke = True
+                        break
+                    except _Continue:
+                        continue
+                if not broke:
+                    self.run(st.orelse, env)
+                continue
+            if isinstance(st, ast.While):
+                n = 0
+                broke = False
+                while self.truth(self.ev(st.test, env)):
+                    n += 1
+                    if n > 200:
+                        raise self.fail('while loop does not terminate on the mock input (200 iterations)')
                     try:
                         self.run(st.body, env)
                     except _Break:
